@@ -59,6 +59,31 @@ def judgeDelete (pre post : List (RPath × Entry)) (p : RPath) (recursive : Bool
     (if sameSet post (specDelete pre p) then [] else ["delete/not-exactly-the-subtree"])
   else if !sameSet pre post then ["delete/failed-but-changed"] else []
 
+/-- a path and all its ancestors, the root included (paths are reversed: the suffixes) -/
+def upwards : RPath → List RPath
+  | [] => [[]]
+  | n :: par => (n :: par) :: upwards par
+
+/-- `rename src dst` with `dst` an ancestor of `src`: the image `p` of a moved entry falls back into the source subtree
+    ONTO something the source already holds — it is the source path itself, or it (or a directory on the way to it) is a
+    path stored strictly below the source before the rename. These are the only images the recorded finding
+    `rename/onto-ancestor-loses-entries` is about (the child named like the source that is deleted as "the old entry",
+    and names colliding below it that are overwritten and moved on with the stale listed copy). -/
+def collidesWithSource (pre : List (RPath × Entry)) (src p : RPath) : Bool :=
+  p == src || (upwards p).any fun q => under src q && q != src && (lookup q pre).isSome
+
+/-- the moved entries that are not (or not with their kind / content) at their image afterwards -/
+def lostEntries (pre post : List (RPath × Entry)) (src dst : RPath) : List (RPath × Entry) :=
+  (pre.filter fun x => under src x.1).filter fun x =>
+    match lookup (reroot src dst x.1) post with
+    | none => true
+    | some e => e.isDir != x.2.isDir || (x.2.hl == 0 && (e.chunks != x.2.chunks || e.tag != x.2.tag))
+
+/-- … of these, the ones the recorded finding does not account for: the image is a path the source never held, so
+    nothing can have overwritten it or removed it as "the old entry" — the entry was destroyed after it had been moved -/
+def lostBeyondKnown (pre post : List (RPath × Entry)) (src dst : RPath) : List (RPath × Entry) :=
+  (lostEntries pre post src dst).filter fun x => !collidesWithSource pre src (reroot src dst x.1)
+
 /-- rename clauses -/
 def judgeRename (pre post : List (RPath × Entry)) (src dst : RPath) (res : Res) : List String :=
   if src == dst then (if sameSet pre post then [] else ["rename/onto-itself-changed"])
@@ -68,17 +93,17 @@ def judgeRename (pre post : List (RPath × Entry)) (src dst : RPath) (res : Res)
   else if res == .ok then
     let moved := pre.filter fun x => under src x.1
     let image := fun (p : RPath) => moved.any fun y => reroot src dst y.1 == p
-    let lost := moved.any fun x =>
-      match lookup (reroot src dst x.1) post with
-      | none => true
-      | some e => e.isDir != x.2.isDir || (x.2.hl == 0 && (e.chunks != x.2.chunks || e.tag != x.2.tag))
+    let lost := !(lostEntries pre post src dst).isEmpty
     let remains := post.any fun x => under src x.1 && !image x.1
     let others := pre.any fun x => !under src x.1 && !image x.1 && lookup x.1 post != some x.2
     let invented := post.any fun x => !image x.1 && (lookup x.1 pre).isNone && !under x.1 dst
     if under dst src then
       -- onto an ancestor of the source: the images of the subtree overlap the subtree itself (known defect family:
       -- colliding names are overwritten with stale listed copies or deleted as "the old entry")
+      -- … but only for images that collide with the source subtree itself; a moved entry whose image is a fresh path
+      -- and that is gone all the same is a loss of its own class
       (if lost || remains || others || invented then ["rename/onto-ancestor-loses-entries"] else [])
+      ++ (if !(lostBeyondKnown pre post src dst).isEmpty then ["rename/more-entries-lost-than-known"] else [])
     else
     (if lost then ["rename/subtree-entry-lost"] else [])
     ++ (if remains then ["rename/source-not-removed"] else [])
